@@ -10,7 +10,8 @@
 EXTENDS Auth, Errors, TraceBase
 
 VARIABLES seen,    \* challenge values seen in this scenario (server and client side)
-          acc      \* accepted reconnect triples <<server challenge, client data, proof>>
+          acc      \* accepted reconnect attempts <<server object, server challenge, client data, proof>> (a clone of a
+                   \* server is another server: it inherits what its source had accepted, and goes its own way)
 
 tvars == <<obj, out, seen, acc>>
 vars  == <<obj, out, seen, acc, l, bad, stat>>
@@ -218,7 +219,8 @@ TrClone ==
     /\ IsEv("Clone")
     /\ CloneObj(E.o, E.o2)
     /\ Done(<<>>, {"Clone"})
-    /\ UNCHANGED <<seen, acc>>
+    /\ acc' = acc \cup { <<E.o2, t[2], t[3], t[4]>> : t \in {u \in acc : u[1] = E.o} }
+    /\ UNCHANGED seen
 
 TrDrop ==
     /\ IsEv("Drop")
@@ -246,7 +248,7 @@ TrVerifyReconnect ==
     /\ LET e == E
            dok == DrawOK(e, 1, "ReconnectRefresh", 16) /\ Len(e.draws) = 1
            newchal == IF dok THEN e.draws[1].used ELSE IF ImplPanic(e) THEN Zeros(16) ELSE e.res.chalAfter
-           triple == <<obj[e.o].chal, e.cdata, e.proof>>
+           triple == <<e.o, obj[e.o].chal, e.cdata, e.proof>>
        IN /\ VerifyReconnect(e.o, e.cdata, e.proof, newchal)
           /\ seen' = seen \cup {newchal}
           /\ acc' = IF out'.ok THEN acc \cup {triple} ELSE acc
